@@ -23,6 +23,7 @@ import SeedProofs.Lemmas.C14This
 import SeedProofs.Lemmas.C14ThisPat
 import SeedProofs.Lemmas.C11Prog3
 import SeedProofs.C11
+import SeedProofs.Lemmas.C14Routes3
 namespace Seed.C14
 open Seed Gen
 
@@ -905,3 +906,17 @@ print(hs[1]());
     [c!"2", c!"1"] := by decide +kernel
 
 end Seed.C14
+
+/-! ### routes a function value can travel (third session; `Lemmas/C14Routes*.lean`)
+
+A function value read from an object keeps that object as `this` on every route through a LIST: `xs[i]` returns the stored item
+itself, value and source (`index_list_returns_stored_item`) — also when the list was itself read from an object
+(`index_list_through_prop`: in `b.handlers[0]` the list carries `b`, the item does not inherit it), a spread hands the stored
+items over unchanged in argument lists and list literals (`spread_keeps_item_src`, `call_spread_args`,
+`spread_args_eq_index_args`: `f(x..)` and `f(x[0], …, x[n-1])` evaluate to the same argument values, sources included), a slice
+is a fresh list of the stored items (`slice_keeps_item_src`), `for` pairs every index with the stored item and binds the loop
+variable to it (`toPairs_list_keeps_items`, `for_item_keeps_src`).  End to end: `stored_method_keeps_this_for` /
+`_spread` / `_handlers` (a method read as `a.who`, kept in a list, reached as the `for` item / through a spread argument /
+as `b.handlers[0]`, runs with `this = a`), `plain_function_in_handlers_has_no_this`. -/
+-- audit: Seed.C14R.index_list_returns_stored_item Seed.C14R.index_list_through_prop Seed.C14R.call_list_item Seed.C14R.call_handlers_item Seed.C14R.spread_keeps_item_src Seed.C14R.list_literal_spread Seed.C14R.call_spread_args Seed.C14R.spread_args_eq_index_args Seed.C14R.slice_keeps_item_src Seed.C14R.toPairs_list_keeps_items Seed.C14R.bindNext_pair Seed.C14R.for_item_keeps_src Seed.C14R.for_item_call
+-- audit: Seed.C14R.queue_for_call Seed.C14R.stored_method_keeps_this_for Seed.C14R.queue_spread_call Seed.C14R.stored_method_keeps_this_spread Seed.C14R.queue_handlers_call Seed.C14R.stored_method_keeps_this_handlers Seed.C14R.plain_function_in_handlers_has_no_this
